@@ -20,11 +20,17 @@
 //!
 //! observation: `F:<hex>` (where bytes are produced here) followed by one `R:<items>` per configuration;
 //! items `/`-separated: `r:<id>:<desc|_>:<seq>[:<qual>]:<check 0|1>` | `e:<class>`; `-` = no item.
+//! `w` / `lay` / `raw fa|fq` append `N:<n1,n2,…>` = the number of `read` calls the underlying reader received while
+//! the real parser ran under each configuration, and `L:<reads>:<len,len,…>` = std's `read_until(b'\n')` called
+//! directly on the `BufReader` of the FIRST configuration until it returns 0 (line lengths, number of `read` calls);
+//! `cut` prints `<k>+<tail>+<reads>` per offset.  These tie `RbV/Model/BufLines.lean` / `FastxStream.lean` to std.
 use crate::util::*;
 use bio::io::fasta::{self, FastaRead};
 use bio::io::fastq::{self, FastqRead};
 use bio::io::fastx::{self, Record as FxRecord};
-use std::io::{self, BufReader, Cursor, Read};
+use std::cell::Cell;
+use std::io::{self, BufRead, BufReader, Cursor, Read};
+use std::rc::Rc;
 
 #[path = "fragio.rs"]
 mod fragio;
@@ -105,6 +111,52 @@ fn dec_cfgs(s: &str) -> Result<Vec<Cfg>, String> {
         return Err("no cfg".into());
     }
     Ok(out)
+}
+
+/// counts the `read` calls that reach the data source (`Fragmenting` forwards every call exactly once)
+struct Counting<R> {
+    inner: R,
+    n: Rc<Cell<usize>>,
+}
+
+impl<R: Read> Read for Counting<R> {
+    fn read(&mut self, buf: &mut [u8]) -> io::Result<usize> {
+        self.n.set(self.n.get() + 1);
+        self.inner.read(buf)
+    }
+}
+
+fn bufreader_counting(bytes: &[u8], c: &Cfg) -> (BufReader<Fragmenting<Counting<Cursor<Vec<u8>>>>>, Rc<Cell<usize>>) {
+    let n = Rc::new(Cell::new(0));
+    let fr = Fragmenting::new(Counting { inner: Cursor::new(bytes.to_vec()), n: n.clone() }, c.sched.clone(), false);
+    let br = if c.cap == 0 { BufReader::new(fr) } else { BufReader::with_capacity(c.cap, fr) };
+    (br, n)
+}
+
+/// std's `read_until(b'\n')` on its own: `<reads>:<line lengths>`
+fn std_lines(bytes: &[u8], c: &Cfg) -> String {
+    let (mut br, n) = bufreader_counting(bytes, c);
+    let mut lens: Vec<usize> = vec![];
+    let mut total = 0usize;
+    loop {
+        let mut line: Vec<u8> = vec![];
+        match br.read_until(b'\n', &mut line) {
+            Ok(0) => break,
+            Ok(k) => {
+                // the line must be the next `k` bytes of the input
+                if k != line.len() || total + k > bytes.len() || bytes[total..total + k] != line[..] {
+                    return format!("{}:x", n.get());
+                }
+                total += k;
+                lens.push(k);
+            }
+            Err(_) => return format!("{}:x", n.get()),
+        }
+        if lens.len() > bytes.len() + 8 {
+            return format!("{}:x", n.get());
+        }
+    }
+    format!("{}:{}", n.get(), join(&lens, ","))
 }
 
 fn bufreader(bytes: &[u8], c: &Cfg) -> BufReader<Fragmenting<Cursor<Vec<u8>>>> {
@@ -256,13 +308,24 @@ fn read_fastq<B: io::BufRead>(rd: B, mode: char, limit: usize) -> Vec<Item> {
     out
 }
 
-fn read_cfg(bytes: &[u8], fq: bool, c: &Cfg) -> Vec<Item> {
+fn read_cfg(bytes: &[u8], fq: bool, c: &Cfg) -> (Vec<Item>, usize) {
     let limit = bytes.len() + 8;
-    if fq {
-        read_fastq(bufreader(bytes, c), c.mode, limit)
-    } else {
-        read_fasta(bufreader(bytes, c), c.mode, limit)
+    let (br, n) = bufreader_counting(bytes, c);
+    let items = if fq { read_fastq(br, c.mode, limit) } else { read_fasta(br, c.mode, limit) };
+    (items, n.get())
+}
+
+/// ` R:… R:… N:n1,n2,… L:<reads>:<lens>` for all configurations
+fn read_all(bytes: &[u8], fq: bool, cfgs: &[Cfg]) -> String {
+    let mut out = String::new();
+    let mut ns = vec![];
+    for c in cfgs {
+        let (items, n) = read_cfg(bytes, fq, c);
+        out.push_str(&format!(" R:{}", enc_items(&items)));
+        ns.push(n);
     }
+    out.push_str(&format!(" N:{} L:{}", join(&ns, ","), std_lines(bytes, &cfgs[0])));
+    out
 }
 
 fn dec_wrap(s: &str) -> Result<Option<usize>, String> {
@@ -404,11 +467,13 @@ fn fx_item(r: &fastx::EitherRecord) -> Item {
 }
 
 /// all sniffing entry points on `bytes`: `K:<get_kind>,<get_kind_seek>[+moved],<EitherRecords::kind>` and the items
-/// via `get_kind` + matching reader and via `EitherRecords`
+/// via `get_kind` + matching reader and via `EitherRecords`; `N:` = number of `read` calls the data source received on
+/// the first path (`read_exact` of `get_kind` + the refills of the `BufReader` on the `Chain`)
 fn run_fx(bytes: &[u8], c: &Cfg) -> String {
     let limit = bytes.len() + 8;
     // 1. get_kind on the raw (fragmenting) reader, then the matching parser on the returned reader
-    let fr = Fragmenting::new(Cursor::new(bytes.to_vec()), c.sched.clone(), false);
+    let n1 = Rc::new(Cell::new(0));
+    let fr = Fragmenting::new(Counting { inner: Cursor::new(bytes.to_vec()), n: n1.clone() }, c.sched.clone(), false);
     let (k1, items1) = match fastx::get_kind(fr) {
         Ok((rd, fastx::Kind::FASTA)) => {
             let br = if c.cap == 0 { BufReader::new(rd) } else { BufReader::with_capacity(c.cap, rd) };
@@ -444,7 +509,7 @@ fn run_fx(bytes: &[u8], c: &Cfg) -> String {
             break;
         }
     }
-    format!("K:{},{},{} R:{} R:{}", k1, k2, k3, enc_items(&items1), enc_items(&items3))
+    format!("K:{},{},{} R:{} R:{} N:{}", k1, k2, k3, enc_items(&items1), enc_items(&items3), n1.get())
 }
 
 pub fn exec(toks: &[&str]) -> Result<String, String> {
@@ -470,10 +535,10 @@ pub fn exec(toks: &[&str]) -> Result<String, String> {
             let cfgs = dec_cfgs(toks[4])?;
             let f = write_real(&recs, fq, wrap, cfgs[0].mode == 'r')?;
             let mut out = format!("F:{}", hex(&f));
-            for c in &cfgs {
-                if toks[0] == "w" {
-                    out.push_str(&format!(" R:{}", enc_items(&read_cfg(&f, fq, c))));
-                } else {
+            if toks[0] == "w" {
+                out.push_str(&read_all(&f, fq, &cfgs));
+            } else {
+                for c in &cfgs {
                     out.push(' ');
                     out.push_str(&run_fx(&f, c));
                 }
@@ -487,9 +552,7 @@ pub fn exec(toks: &[&str]) -> Result<String, String> {
             let f = layout(toks[2], fq)?;
             let cfgs = dec_cfgs(toks[3])?;
             let mut out = format!("F:{}", hex(&f));
-            for c in &cfgs {
-                out.push_str(&format!(" R:{}", enc_items(&read_cfg(&f, fq, c))));
-            }
+            out.push_str(&read_all(&f, fq, &cfgs));
             Ok(out)
         }
         "cut" => {
@@ -512,12 +575,12 @@ pub fn exec(toks: &[&str]) -> Result<String, String> {
                 if c > f.len() {
                     return Err("offset beyond file".into());
                 }
-                let items = read_cfg(&f[..c], fq, &cfgs[0]);
+                let (items, reads) = read_cfg(&f[..c], fq, &cfgs[0]);
                 let mut k = 0;
                 while k < items.len() && k < recs.len() && items[k] == Item::R(recs[k].clone(), true) {
                     k += 1;
                 }
-                out.push_str(&format!(" {}+{}", k, enc_items(&items[k..])));
+                out.push_str(&format!(" {}+{}+{}", k, enc_items(&items[k..]), reads));
             }
             Ok(out)
         }
@@ -528,15 +591,15 @@ pub fn exec(toks: &[&str]) -> Result<String, String> {
             let f = unhex(toks[2])?;
             let cfgs = dec_cfgs(toks[3])?;
             let mut out = String::new();
-            for (i, c) in cfgs.iter().enumerate() {
-                if i > 0 {
-                    out.push(' ');
-                }
-                if toks[1] == "fx" {
+            if toks[1] == "fx" {
+                for (i, c) in cfgs.iter().enumerate() {
+                    if i > 0 {
+                        out.push(' ');
+                    }
                     out.push_str(&run_fx(&f, c));
-                } else {
-                    out.push_str(&format!("R:{}", enc_items(&read_cfg(&f, fq, c))));
                 }
+            } else {
+                out.push_str(read_all(&f, fq, &cfgs).trim_start());
             }
             Ok(out)
         }
@@ -814,6 +877,27 @@ fn garbage(rng: &mut Rng, fq: bool) -> Vec<u8> {
             if rng.chance(1, 20) {
                 let p = rng.below(f.len() + 1);
                 f.insert(p, 0xC3); // a lone UTF-8 lead byte
+            }
+            if rng.chance(1, 12) {
+                // non-ASCII Unicode white space (`trim_end`, FASTA header split) and near misses (U+200B, U+180E, U+0084,
+                // U+00A1 are not white space), at the end of a line or anywhere
+                const WS: &[&str] = &[
+                    "\u{85}", "\u{a0}", "\u{1680}", "\u{2000}", "\u{2005}", "\u{200a}", "\u{2028}", "\u{2029}", "\u{202f}",
+                    "\u{205f}", "\u{3000}", "\u{200b}", "\u{180e}", "\u{84}", "\u{a1}", "\u{2060}", "\u{feff}",
+                ];
+                let n = 1 + rng.below(2);
+                for _ in 0..n {
+                    let ends: Vec<usize> = f.iter().enumerate().filter(|(_, &b)| b == b'\n').map(|(i, _)| i).collect();
+                    let p = if !ends.is_empty() && rng.chance(2, 3) { ends[rng.below(ends.len())] } else { rng.below(f.len() + 1) };
+                    // only at a character boundary, so that the file stays valid UTF-8 where it was
+                    if p < f.len() && (f[p] & 0xC0) == 0x80 {
+                        continue;
+                    }
+                    let ws = WS[rng.below(WS.len())].as_bytes();
+                    for (i, b) in ws.iter().enumerate() {
+                        f.insert(p + i, *b);
+                    }
+                }
             }
             f
         }
